@@ -60,7 +60,8 @@ theorem table_nonempty : registry.length = functionDefinitions ∧ 0 < registry.
     rows.length ≥ registry.length := by decide +kernel
 
 def hasRow (payload param : String) (ty : TyClass) (u : Use) : Bool :=
-  rows.any fun r => r.payload == payload.toList && r.param == param.toList && r.ty == ty && r.uses.contains u
+  -- cheap tests first: the kernel converts a string literal per comparison
+  rows.any fun r => r.ty == ty && r.uses.contains u && r.payload == payload.toList && r.param == param.toList
 
 theorem yaqlized_rows :
     hasRow "yaql.standard_library.yaqlized.attribution" "obj" (.yaqlized true false false) .getattr = true ∧
@@ -77,7 +78,7 @@ theorem yaqlized_flags_match : rows.all (fun r =>
 
 /-- the scan is not blind: it does see the host-touching uses of the exception rows -/
 theorem exceptions_seen : exceptions.all (fun e =>
-    (rows ++ typeRows).any fun r => r.payload == e.1 && r.param == e.2.1 && r.ty == .open && r.touches) = true := by
+    (rows ++ typeRows).any fun r => r.ty == .open && r.touches && r.payload == e.1 && r.param == e.2.1) = true := by
   decide +kernel
 
 /-- no parameter that admits a string is used as a format template (`p % x`, `p.format(..)`), and no
@@ -118,11 +119,14 @@ theorem gate_generated {E V : Type} (fits : FactRow → V → Bool)
 
 /-- non-vacuity on the real table: `$obj.attr` with a yaqlized object has a candidate, the same
     call with a plain host object has none among the yaqlized overloads -/
-def attrCall (h : Host Entry) : List FnDef :=
-  (candidates (V := Unit) (fun r _ => r.param == "attr".toList) registry "#operator_.".toList
-    [.host h, .native ()]).filter fun f => f.payload == "yaql.standard_library.yaqlized.attribution".toList
+def yaqlizedFns : List FnDef :=
+  registry.filter fun f => f.params.any fun r => r.ty == .yaqlized true false false
 
-theorem gate_witness : (attrCall (some {})).length = 1 ∧ (attrCall none).length = 0 ∧
+def attrCall (h : Host Entry) : List FnDef :=
+  candidates (V := Unit) (fun r _ => r.param == "attr".toList) yaqlizedFns "#operator_.".toList
+    [.host h, .native ()]
+
+theorem gate_witness : yaqlizedFns.length = 1 ∧ (attrCall (some {})).length = 1 ∧ (attrCall none).length = 0 ∧
     (attrCall (some { yaqlizeAttributes := false })).length = 0 := by decide +kernel
 
 end Yaql.Props.C07Gen
